@@ -163,6 +163,11 @@ def parse_payload(f):
         if r is None:
             return
         body, pad = r
+        rest = len(body)
+        if (fl & F_PADDED) and ((not (fl & F_PRIORITY) and pad > 0 and pad == rest) or
+                                ((fl & F_PRIORITY) and rest - 5 < pad < rest)):
+            f.quirk = ('hyperframe 6.1 compares the pad length with the payload before the priority fields are taken off: '
+                       'it refuses an empty fragment with maximal padding and accepts padding that overlaps the priority fields')
         if fl & F_PRIORITY:
             if len(body) < 5:
                 f.bad = f.bad or ('size', 'HEADERS priority fields truncated')
@@ -218,6 +223,8 @@ def parse_payload(f):
         if raw >> 31:
             f.quirk = 'hyperframe 6.1 does not mask the reserved bit of the promised stream id'
         f.promised = raw & 0x7fffffff
+        if (fl & F_PADDED) and len(body) - 4 < pad < len(body):
+            f.quirk = 'hyperframe 6.1 accepts PUSH_PROMISE padding that overlaps the promised stream id'
         body = body[4:]
         if pad > len(body):
             f.bad = f.bad or ('proto', 'padding longer than payload')
